@@ -104,7 +104,7 @@ namespace awkward {
   UnionBuilder::boolean(bool x) {
     if (current_ == -1) {
       BuilderPtr tofill(nullptr);
-      int8_t i = 0;
+      int64_t i = 0;
       for (auto content : contents_) {
         if (dynamic_cast<BoolBuilder*>(content.get()) != nullptr) {
           tofill = content;
@@ -131,7 +131,7 @@ namespace awkward {
   UnionBuilder::integer(int64_t x) {
     if (current_ == -1) {
       BuilderPtr tofill(nullptr);
-      int8_t i = 0;
+      int64_t i = 0;
       for (auto content : contents_) {
         if (dynamic_cast<Int64Builder*>(content.get()) != nullptr) {
           tofill = content;
@@ -158,7 +158,7 @@ namespace awkward {
   UnionBuilder::real(double x) {
     if (current_ == -1) {
       BuilderPtr tofill(nullptr);
-      int8_t i = 0;
+      int64_t i = 0;
       for (auto content : contents_) {
         if (dynamic_cast<Float64Builder*>(content.get()) != nullptr) {
           tofill = content;
@@ -201,7 +201,7 @@ namespace awkward {
   UnionBuilder::complex(std::complex<double> x) {
     if (current_ == -1) {
       BuilderPtr tofill(nullptr);
-      int8_t i = 0;
+      int64_t i = 0;
       for (auto content : contents_) {
         if (dynamic_cast<Complex128Builder*>(content.get()) != nullptr) {
           tofill = content;
@@ -260,7 +260,7 @@ namespace awkward {
   UnionBuilder::datetime(int64_t x, const std::string& unit) {
     if (current_ == -1) {
       BuilderPtr tofill(nullptr);
-      int8_t i = 0;
+      int64_t i = 0;
       for (auto content : contents_) {
         if (DatetimeBuilder* raw = dynamic_cast<DatetimeBuilder*>(content.get())) {
           if (raw->units() == unit) {
@@ -289,7 +289,7 @@ namespace awkward {
   UnionBuilder::timedelta(int64_t x, const std::string& unit) {
     if (current_ == -1) {
       BuilderPtr tofill(nullptr);
-      int8_t i = 0;
+      int64_t i = 0;
       for (auto content : contents_) {
         if (DatetimeBuilder* raw = dynamic_cast<DatetimeBuilder*>(content.get())) {
           if (raw->units() == unit) {
@@ -318,7 +318,7 @@ namespace awkward {
   UnionBuilder::string(const char* x, int64_t length, const char* encoding) {
     if (current_ == -1) {
       BuilderPtr tofill(nullptr);
-      int8_t i = 0;
+      int64_t i = 0;
       for (auto content : contents_) {
         if (StringBuilder* raw = dynamic_cast<StringBuilder*>(content.get())) {
           if (raw->encoding() == encoding) {
@@ -347,7 +347,7 @@ namespace awkward {
   UnionBuilder::beginlist() {
     if (current_ == -1) {
       BuilderPtr tofill(nullptr);
-      int8_t i = 0;
+      int64_t i = 0;
       for (auto content : contents_) {
         if (dynamic_cast<ListBuilder*>(content.get()) != nullptr) {
           tofill = content;
@@ -391,7 +391,7 @@ namespace awkward {
   UnionBuilder::begintuple(int64_t numfields) {
     if (current_ == -1) {
       BuilderPtr tofill(nullptr);
-      int8_t i = 0;
+      int64_t i = 0;
       for (auto content : contents_) {
         if (TupleBuilder* raw = dynamic_cast<TupleBuilder*>(content.get())) {
           if (raw->length() == -1  ||  raw->numfields() == numfields) {
@@ -450,7 +450,7 @@ namespace awkward {
   UnionBuilder::beginrecord(const char* name, bool check) {
     if (current_ == -1) {
       BuilderPtr tofill(nullptr);
-      int8_t i = 0;
+      int64_t i = 0;
       for (auto content : contents_) {
         if (RecordBuilder* raw = dynamic_cast<RecordBuilder*>(content.get())) {
           if (raw->length() == -1  ||
@@ -511,7 +511,7 @@ namespace awkward {
   UnionBuilder::append(const ContentPtr& array, int64_t at) {
     if (current_ == -1) {
       BuilderPtr tofill(nullptr);
-      int8_t i = 0;
+      int64_t i = 0;
       for (auto content : contents_) {
         if (IndexedGenericBuilder* raw =
             dynamic_cast<IndexedGenericBuilder*>(content.get())) {
